@@ -249,6 +249,12 @@ fn finish(check: &str, tier: Tier, agg: Agg, t0: Instant, partial: bool) {
     let known = load_known(check);
     let replay_dir = format!("{}/evidence/replay", VERIF);
     let _ = std::fs::create_dir_all(&replay_dir);
+    if !partial {
+        // replay files of earlier runs of this check are stale
+        if let Ok(rd) = std::fs::read_dir(&replay_dir) {
+            for e in rd.flatten() { let n = e.file_name().to_string_lossy().to_string(); if n.starts_with(&format!("{}-", check)) && !n.contains("-P") && !n.contains("-build") && !n.contains("-loom") && !n.contains("-nommap") { let _ = std::fs::remove_file(e.path()); } }
+        }
+    }
     let mut new_viol = 0u64;
     let mut known_hit = Vec::new();
     let mut viol_lines = Vec::new();
